@@ -164,7 +164,23 @@ impl Driver {
         let was_ingesting = observe().ingesting.is_some();
         let stable_before = observe().stable_height;
         let t0 = std::time::Instant::now();
-        let applied = self.w.apply(ev).map_err(|v| self.relabel_c09(v))?;
+        let applied = match self.w.apply(ev) {
+            Ok(a) => a,
+            Err(v) => {
+                if v.property == "C03" && v.kind == "advance-not-due" && self.w.reference_took_other_step && !self.w.is_active("C03") {
+                    // The anchor left the chain the reference serves. Evaluate this profile's own
+                    // answers against the reference (which advanced to the child the rule names).
+                    if let Err(mut own) = self.w.check_views(at) {
+                        if own.property == self.profile {
+                            own.kind = format!("after-wrong-advance:{}", own.kind);
+                            own.detail = format!("{} (the canister's anchor had just advanced to a child the stability rule does not allow: {})", own.detail, v.detail);
+                            return Err(fix(own));
+                        }
+                    }
+                }
+                return Err(self.relabel_c09(v));
+            }
+        };
         *self.w.stats.wall_us.entry(format!("apply:{}", ev.kind())).or_insert(0) += t0.elapsed().as_micros() as u64;
         let t0 = std::time::Instant::now();
         if !applied {
